@@ -2502,6 +2502,165 @@ fn emitted_module_case(out: &mut Out, vm: &Thread, p: &Prog, bytes: &[u8], repla
     out.class(format!("mod:{}:{}", p.feats.join("+"), verdict));
 }
 
+/// Sequence-shaped nodes of the serialised VALUE form: (kind, the array node whose trailing elements can
+/// be deleted, number of leading elements that are not payload, the count field if the form has one).
+fn seq_nodes<'a>(n: &'a JNode, parent: Option<&'a JNode>, out: &mut Vec<(&'static str, &'a JNode, usize, Option<&'a JNode>)>) {
+    let key = n.key.as_ref().map(|k| k.2.as_str()).unwrap_or("");
+    match (key, &n.kind) {
+        // [ {"Marked":id}, function, upvar count, upvar… ]
+        ("Closure", JK::Arr) if n.kids.len() >= 3 && n.kids[2].kind == JK::Num => out.push(("closure", n, 3, Some(&n.kids[2]))),
+        ("fields", JK::Arr) => {
+            if let Some(tag) = parent.and_then(|p| jget(p, "tag")) {
+                let kind = if jget(tag, "Record").is_some() { "record" } else { "variant" };
+                out.push((kind, n, 0, None));
+            }
+        }
+        ("args", JK::Arr) if parent.map_or(false, |p| jget(p, "function").is_some()) => out.push(("partial-application", n, 0, None)),
+        ("Array", JK::Obj) => {
+            let inner = jget(n, "Plain").or_else(|| jget(n, "Marked").and_then(|m| m.kids.get(1)));
+            if let Some(a) = inner {
+                if a.kind == JK::Arr {
+                    out.push(("array", a, 0, None));
+                }
+            }
+        }
+        _ => (),
+    }
+    for k in &n.kids {
+        seq_nodes(k, Some(n), out);
+    }
+}
+
+/// Structural truncation of serialised values (wave-2 strengthening): trailing elements of a
+/// sequence-shaped node deleted at element boundaries (the JSON stays well formed) and the count field
+/// raised / lowered by one. Where the form is redundant (closure: explicit upvar count; record: one value
+/// per field name) the real `DeSeed` must answer `Err`; a success is a load of something that was never
+/// written. Forms without redundancy (variant arguments, array elements, partial-application arguments:
+/// a shorter list is a well-formed different value) are only counted.
+fn stream_struct(out: &mut Out, rng: &mut Rng, n: usize) {
+    let vm = mk_vm(false, false);
+    let mut vm2 = mk_vm(false, false);
+    for i in 0..n {
+        let a: Vec<i64> = (0..8).map(|_| rng.range(0, 50)).collect();
+        let defs = format!(
+            "type W = | W3 Int Int Int | W0\n\
+             let mk3 a b c = \\z -> a #Int+ b #Int+ c #Int+ z\n\
+             let mk2 a b = \\z -> a #Int+ b #Int+ z\n\
+             let mk1 a = \\z -> a #Int+ z\n\
+             let counter lim step =\n    rec let go x = if x #Int< lim then go (x #Int+ step) else x\n    in go\n\
+             let add3 x y z = x #Int+ y #Int+ z\n\
+             let nest p = \\q -> {{ p, q, h = mk2 p q }}\n"
+        );
+        let roots: [(&str, String); 9] = [
+            ("clo3", format!("mk3 {} {} {}", a[0], a[1], a[2])),
+            ("clo2", format!("mk2 {} {}", a[0], a[1])),
+            ("clo1", format!("mk1 {}", a[3])),
+            ("rec-clo", format!("counter {} {}", a[4] + 1, a[5] + 1)),
+            ("variant", format!("W3 {} {} {}", a[0], a[1], a[2])),
+            ("array", format!("[{}, {}, {}, {}]", a[0], a[1], a[2], a[3])),
+            ("pap", format!("add3 {} {}", a[6], a[7])),
+            ("record", format!("{{ x = {}, y = \"s\", z = {}.5, w = mk1 {} }}", a[0], a[1], a[2])),
+            ("nest", format!("nest {}", a[0])),
+        ];
+        let which = if i % 3 == 0 { 9 } else { rng.below(9) as usize };
+        let (shape, body): (&str, String) = if which == 9 {
+            ("all", format!("{{ {} }}", roots.iter().enumerate().map(|(k, r)| format!("f{} = {}", k, r.1)).collect::<Vec<_>>().join(", ")))
+        } else {
+            (roots[which].0, roots[which].1.clone())
+        };
+        let src = format!("{}{}\n", defs, body);
+        let name = format!("st{}", i);
+        let v = match gv::catch(|| vm.run_expr::<OpaqueValue<RootedThread, Hole>>(&name, &src)) {
+            Ok(Ok((v, _))) => v,
+            Ok(Err(e)) => {
+                out.count("struct:rejected-by-gluon");
+                out.stats.insert("struct:rejected-sample".into(), json!({"src": src, "err": e.to_string()}));
+                continue;
+            }
+            Err(pn) => {
+                out.oracle_fail("panic:run-value-program", &format!("running a value program panicked: {}", pn), json!({"kind": "dag", "src": src}));
+                continue;
+            }
+        };
+        let bytes = match ser_value(v.get_variant()) {
+            Ok(b) => b,
+            Err(_) => {
+                out.count("struct:ser-error");
+                continue;
+            }
+        };
+        let text = String::from_utf8_lossy(&bytes).into_owned();
+        let root = match jscan(&bytes) {
+            Some(r) => r,
+            None => continue,
+        };
+        let intact = de_payload(&vm2, &bytes);
+        if !intact.starts_with("(ok") {
+            // the intact text must load (cycles through records do not: not generated here)
+            out.count(&format!("struct:intact-not-loaded:{}", shape));
+            continue;
+        }
+        out.count(&format!("struct:program:{}", shape));
+        let mut nodes = vec![];
+        seq_nodes(&root, None, &mut nodes);
+        let mut damaged: Vec<(&'static str, String, String)> = vec![];
+        for (kind, arr, lead, count) in &nodes {
+            let payload = arr.kids.len().saturating_sub(*lead);
+            for k in 1..=payload {
+                // delete the last k elements (and the comma before them)
+                let first = &arr.kids[arr.kids.len() - k];
+                let last = &arr.kids[arr.kids.len() - 1];
+                let from = if arr.kids.len() - k == 0 { first.start } else { arr.kids[arr.kids.len() - k - 1].end };
+                damaged.push((kind, format!("drop-last-{}", if k == payload && k > 1 { "all".to_string() } else { k.to_string() }), format!("{}{}", &text[..from], &text[last.end..])));
+            }
+            if let Some(c) = count {
+                if let Some(v) = jnum(&bytes, c) {
+                    damaged.push((kind, "count+1".into(), format!("{}{}{}", &text[..c.start], v + 1, &text[c.end..])));
+                    if v > 0 {
+                        damaged.push((kind, "count-1".into(), format!("{}{}{}", &text[..c.start], v - 1, &text[c.end..])));
+                    }
+                }
+            }
+        }
+        for (kind, dmg, t) in damaged {
+            if jscan(t.as_bytes()).is_none() || serde_json::from_str::<serde_json::Value>(&t).is_err() {
+                out.count("struct:damage-not-wellformed");
+                continue;
+            }
+            let r = de_payload(&vm2, t.as_bytes());
+            let outcome = if r.starts_with("(ok") {
+                "loaded"
+            } else if r.starts_with("(panic") {
+                "panic"
+            } else {
+                "err"
+            };
+            out.count(&format!("struct:{}:{}:{}", kind, dmg, outcome));
+            out.class(format!("struct:{}:{}:{}:{}", shape, kind, dmg, outcome));
+            let redundant = kind == "closure" || kind == "record";
+            if outcome == "panic" {
+                out.oracle_fail(
+                    &format!("panic:structural:{}:{}", kind, dmg),
+                    &format!("deserialising a structurally truncated value panicked: {}", r),
+                    json!({"kind": "dag", "src": src, "damage": dmg, "node": kind, "text": t}),
+                );
+                vm2 = mk_vm(false, false);
+            } else if outcome == "loaded" && redundant {
+                let what = if r == intact {
+                    "a value whose element list was cut short / whose count was changed loads (with made-up slots) instead of failing"
+                } else {
+                    "a value whose element list was cut short / whose count was changed loads as something else instead of failing"
+                };
+                out.oracle_fail(
+                    &format!("loads-truncated:{}:{}", kind, dmg),
+                    what,
+                    json!({"kind": "dag", "src": src, "damage": dmg, "node": kind, "text": t, "loaded": r, "intact": intact}),
+                );
+            }
+        }
+    }
+}
+
 /// Hand-damaged instruction arrays: the real `Deserialize` of `Vec<Instruction>` (then `Serialize`) vs
 /// the model's `decodeList` (then `encodeList`), exact.
 fn stream_instrs(out: &mut Out, rng: &mut Rng, n: usize) {
@@ -2945,6 +3104,9 @@ fn main() {
     stream_cyc(&mut out, &mut rng_y, if thorough { 300 } else { 60 });
     let mut rng_t = Rng::new(args.seed, 12121212);
     stream_text(&mut out, &mut rng_t, if thorough { 5000 } else { 600 });
+    let mut rng_s = Rng::new(args.seed, 121212121212);
+    stream_struct(&mut out, &mut rng_s, if thorough { 400 } else { 60 });
+    phase("structural truncation done");
     let mut rng_i = Rng::new(args.seed, 1212121212);
     phase("C / cyclic / text done");
     stream_instrs(&mut out, &mut rng_i, if thorough { 6000 } else { 900 });
